@@ -65,8 +65,12 @@ func (ctn Writer) ToCborBase64() ([]byte, error) {
 // ToCborBase64Writer is the same as ToCborBase64, but with an io.Writer.
 func (ctn Writer) ToCborBase64Writer(w io.Writer) error {
 	w2 := base64.NewEncoder(base64.StdEncoding, w)
-	defer w2.Close()
-	return ctn.ToCborWriter(w2)
+	if err := ctn.ToCborWriter(w2); err != nil {
+		_ = w2.Close()
+		return err
+	}
+	// Close flushes the last, partial group: its error is an error of the whole write
+	return w2.Close()
 }
 
 // ToCar encode the container into a CAR file.
@@ -103,6 +107,10 @@ func (ctn Writer) ToCarBase64() ([]byte, error) {
 // ToCarBase64Writer is the same as ToCarBase64, but with an io.Writer.
 func (ctn Writer) ToCarBase64Writer(w io.Writer) error {
 	w2 := base64.NewEncoder(base64.StdEncoding, w)
-	defer w2.Close()
-	return ctn.ToCarWriter(w2)
+	if err := ctn.ToCarWriter(w2); err != nil {
+		_ = w2.Close()
+		return err
+	}
+	// Close flushes the last, partial group: its error is an error of the whole write
+	return w2.Close()
 }
